@@ -134,6 +134,17 @@ func (conn *Conn) Serve() {
 	log.Debugf("%s: Connection Terminated", conn.sessionid)
 }
 
+// setDataConn makes socket the data connection of the session. A data connection requested
+// earlier and not used (PASV or PORT sent twice, or one after the other) is closed: it would
+// otherwise stay open for as long as the process runs.
+func (conn *Conn) setDataConn(socket DataSocket) {
+	if conn.dataConn != nil {
+		conn.dataConn.Close()
+	}
+
+	conn.dataConn = socket
+}
+
 // Close will manually close this connection, even if the client isn't ready.
 func (conn *Conn) Close() {
 	//send quit message
